@@ -30,6 +30,10 @@ func (o *OffsetExpr) Eval(ctx context.Context, local Scope) (_ Value, err error)
 		return nil, WrapContextErr(errors.Errorf("offset must be a number, not %s", ValueTypeAsString(offset)), o, local)
 	}
 
+	if _, isInt := offset.(Number).Int(); !isInt {
+		return nil, WrapContextErr(errors.Errorf("offset must be an integer, not %v", offset), o, local)
+	}
+
 	array, err := o.array.Eval(ctx, local)
 	if err != nil {
 		return nil, WrapContextErr(err, o, local)
